@@ -282,7 +282,8 @@ CHECKS["C12"] = dict(
     alphabet="material classes: 8 three-men and 36 four-men pawnless classes; storage back ends: VectorStorage and TTStorage inside a 16 MB TranspositionTable through the real updateTB; "
              "faults: clock jump past the time limit at every clock query of a generation, stop request (maxTimeMillis=0) at every clock query",
     oracle="Bellman local consistency: checkmate = mated in 0, stalemate = draw, non-terminal value = minimax of successor values (successors from MoveGen, validated by C01); "
-           "out-of-scope positions (pawns, castling rights, other material) not found; after an aborted generation no probe succeeds, used size is restored, and a second complete generation is exact",
+           "out-of-scope positions (pawns, castling rights, other material) not found; after an aborted generation no probe succeeds, used size is restored, and a second complete generation is exact; "
+           "when an injected stop / time-out does not make updateTB fail, the table it installed passes the same exactness pass as an undisturbed one",
     bound=dict(quick="all 3-men classes on all 64x64 king placements (vector + TT storage), 4-men classes KQvKR, KRvKB, KNvKQ, KBNvK, KvKRR, KRvKR + 2 rotating (vector storage) and KQvKN + 1 rotating (TT storage) with the white king in the a1-d1-d4 triangle, "
                      "all abort points of all 8 three-men classes", thorough="all 36 4-men classes on every placement, all abort points of all 3-men and 2 four-men classes"),
     assumptions=["the minimax equations use texel's MoveGen for successors; MoveGen is checked against the independent oracle on all <= 4-men placements by C01",
